@@ -8,3 +8,4 @@ import TlxVerif.Props.C10
 #print axioms TlxVerif.C10.pool_at_rest_waiter
 #print axioms TlxVerif.C10.pool_at_rest_main
 #print axioms TlxVerif.C10.pool_idle_count
+#print axioms TlxVerif.C10.pool_stuck_is_at_rest
